@@ -31,13 +31,31 @@ Record Inv3 (s : state) : Prop := {
   i3_c2 : closed s = true -> conn s = false;
   i3_c3 : conn s = false -> closed s = true \/ io_hc_late (io s) = true;
   i3_late : io_hc_late (io s) = true -> conn s = false;
+  i3_scx : forall j p, nth_error (ws s) j = Some p -> w_scx p = true -> conn s = false;
   i3_n : forall j p n, nth_error (ws s) j = Some p -> wpc_n p = Some n -> 0 < n
 }.
 
 Lemma inv3_init : forall nw, Inv3 (init nw).
 Proof.
   intros. constructor; unfold tot_ok; simpl; intros; try lia; try discriminate; auto.
-  apply nth_error_In in H. apply repeat_spec in H. subst. discriminate.
+  - apply nth_error_In in H. apply repeat_spec in H. subst. discriminate.
+  - apply nth_error_In in H. apply repeat_spec in H. subst. discriminate.
+Qed.
+
+Lemma scx_notify : forall l (P : Prop),
+  (forall j p, nth_error l j = Some p -> w_scx p = true -> P) ->
+  forall j p, nth_error (notify_o l) j = Some p -> w_scx p = true -> P.
+Proof.
+  intros l P H j q Hj Hq. destruct (notify_o_nth _ _ _ Hj) as (p & Hp & [->|[Pp ->]]).
+  - eapply H; eauto.
+  - destruct p; simpl in Pp; try discriminate; simpl in Hq; discriminate.
+Qed.
+
+Lemma scx_add_task : forall s (P : Prop),
+  (forall j p, nth_error (ws s) j = Some p -> w_scx p = true -> P) ->
+  forall j p, nth_error (ws (add_task s)) j = Some p -> w_scx p = true -> P.
+Proof.
+  intros s P H j p Hj Hp. apply ws_add_task_inv in Hj. destruct Hj as [->|Hj]; [discriminate|eauto].
 Qed.
 
 Lemma notified_n : forall p, wpc_n (notified p) = wpc_n p.
@@ -78,7 +96,7 @@ Ltac z_hyps :=
 Lemma inv3_step_io : forall c s ch s' l,
   Inv3 s -> step_io c s ch = Some (s', l) -> taint s' = false -> Inv3 s'.
 Proof.
-  intros c s ch s' l [Hpe Ht3 Hc2 Hc3 Hlate Hn] H Ht. unfold tot_ok in Ht3. unfold step_io in H. step_cases H.
+  intros c s ch s' l [Hpe Ht3 Hc2 Hc3 Hlate Hscx Hn] H Ht. unfold tot_ok in Ht3. unfold step_io in H. step_cases H.
   all: unfold after_read, turn_start, hc_return, goio in *.
   all: repeat match goal with |- context [if ?b then _ else _] => destruct b eqn:? end.
   all: z_hyps.
@@ -89,15 +107,17 @@ Proof.
        try (intros; lia); try (intros; congruence);
        try (intros Hx; specialize (Ht3 Hx); lia);
        try (intros Hx; destruct (Hc3 Hx); [congruence|discriminate]);
-       try (apply inv3_n_notify; auto); try (apply inv3_n_add_task; auto).
+       try (apply inv3_n_notify; auto); try (apply inv3_n_add_task; auto);
+       try (apply scx_notify; auto); try (apply scx_add_task; auto).
 Qed.
 
 Lemma inv3_step_w : forall c s i ch s' l,
   Inv1 s -> Inv2 s -> Inv3 s -> step_w c s i ch = Some (s', l) -> taint s' = false -> Inv3 s'.
 Proof.
-  intros c s i ch s' l HI1 HI2 [Hpe Ht3 Hc2 Hc3 Hlate Hn] H Ht. unfold step_w in H.
+  intros c s i ch s' l HI1 HI2 [Hpe Ht3 Hc2 Hc3 Hlate Hscx Hn] H Ht. unfold step_w in H.
   destruct (getw s i) as [pc|] eqn:Hg; [|discriminate]. unfold getw in Hg.
   assert (Hni : forall n, wpc_n pc = Some n -> 0 < n) by (intros n0 Hx; eapply Hn; eauto).
+  assert (Hsi : w_scx pc = true -> conn s = false) by (intros Hx; eapply Hscx; eauto).
   unfold tot_ok in Ht3.
   step_cases H.
   all: simpl in Ht; try discriminate Ht.
@@ -110,6 +130,13 @@ Proof.
   all: try (intros j p n' Hj Hpn; apply nth_error_upd_inv in Hj; destruct Hj as [[-> ->]|[Hne Hj]];
             [ simpl in Hpn; try discriminate; inversion Hpn; subst; try lia; try (apply Hni; reflexivity)
             | try (apply ws_add_task_inv in Hj; destruct Hj as [->|Hj]; [discriminate|]); eapply Hn; eauto ]).
+  all: try (intros j p Hj Hp; first [ apply nth_error_upd_inv in Hj; destruct Hj as [[-> ->]|[Hne Hj]]
+                                     | idtac ];
+            [ simpl in Hp; try discriminate Hp; simpl in Hsi;
+              first [ assumption | apply Hsi; reflexivity | apply Hc2; assumption | congruence ]
+            | try (apply ws_add_task_inv in Hj; destruct Hj as [->|Hj]; [discriminate|]);
+              first [ eapply Hscx; eauto; fail | pose proof (Hscx _ _ Hj Hp); congruence ] ]; fail).
+  all: try (intros j p Hj Hp; eapply Hscx; eauto; fail).
   all: try match goal with E : conn _ = _ |- _ => rewrite ?E end.
   all: try match goal with E : closed _ = _ |- _ => rewrite ?E end.
   all: auto.
